@@ -124,11 +124,31 @@ def _send(server, spec, items):
 
 
 def _norm_item(it, masked):
+    """Results that depend on key material the server generated at random (a key made by Create /
+    CreateKeyPair in this batch, or derived from one) differ between two runs by design: the
+    material itself and whatever is computed with it are masked."""
     it = copy.deepcopy(it)
     p = it.get("payload")
-    if p and isinstance(p, dict) and p.get("secret") and p.get("uid") in masked:
-        p["secret"]["value"] = "<masked>"
+    if p and isinstance(p, dict) and str(p.get("uid")) in set(str(m) for m in masked):
+        if p.get("secret"):
+            p["secret"]["value"] = "<masked>"
+        for k in ("sig", "data", "mac", "tag", "iv", "valid"):
+            if p.get(k) is not None:
+                p[k] = "<masked>"
     return it
+
+
+def _random_uids(items, R):
+    """Identifiers of the objects of a response whose value is random: made by Create /
+    CreateKeyPair, or derived (DeriveKey) from such an object or from the ID placeholder."""
+    mask = set(str(u) for u in hist.random_value_uids(R))
+    for it, r in zip(items, R):
+        if it["op"] == "DeriveKey" and r["status"] == "SUCCESS" and r.get("payload"):
+            bases = it.get("uids")
+            if not bases or any(str(b) in mask for b in bases):
+                if mask or not bases:
+                    mask.add(str(r["payload"].get("uid")))
+    return sorted(mask)
 
 
 def run_case(spec):
@@ -199,7 +219,7 @@ def run_case(spec):
         if len(R) >= 2 and failed and failed[0] < len(R) - 1:
             nontrivial = True
         # ---- metamorphic: drop failed items
-        mask = hist.random_value_uids(R)
+        mask = _random_uids(items, R)
         sA = hist.snapshot(srv, mask)
         keep = [k for k in range(len(R)) if k not in failed]
         variants = [("without-failed-items", keep)]
@@ -222,7 +242,7 @@ def run_case(spec):
                 buckets.append(("C08|metamorphic|%s|reduced-batch-refused" % label, repr(r2.get("error"))))
                 continue
             R2 = r2["items"]
-            mask2 = hist.random_value_uids(R2)
+            mask2 = _random_uids(sub, R2)
             exp = [_norm_item(R[k], set(mask)) for k in ks]
             got = [_norm_item(x, set(mask2)) for x in R2]
             if exp != got:
